@@ -1,4 +1,3 @@
-import BobModel.Util.Proto
-open Lean Proto
-/-- stub driver of C05: replaced when the model of this property is built -/
-def main : IO Unit := runPure fun _ => err "unsupported"
+import BobModel.Model.BuilderProto
+/-- driver of C05: the stateful line protocol of the builder model (see Model/BuilderProto.lean) -/
+def main : IO Unit := BuilderProto.drvMain
